@@ -188,6 +188,8 @@ func (in *Interp) intOp(op token.Token, k scKind, yt types.Type, x, y Sc) Value 
 			in.rtPanic("negative shift amount")
 		}
 		var cnt uint64
+		var cntT *sym.Term // symbolic count, brought to width w (nil = concrete)
+		var bigT *sym.Term // condition "count >= w" when the count type is wider than w
 		if y.T != nil && !y.T.IsConst() {
 			if yk.signed {
 				neg := in.St.Cmp(sym.OpSlt, y.T, in.St.Const(yk.bits, 0))
@@ -195,7 +197,13 @@ func (in *Interp) intOp(op token.Token, k scKind, yt types.Type, x, y Sc) Value 
 					in.rtPanic("negative shift amount")
 				}
 			}
-			cnt = in.concretize(y, yk.bits, "shift-count")
+			cnt = y.C
+			if yk.bits <= w {
+				cntT = in.St.Resize(y.T, w, false)
+			} else {
+				bigT = in.St.Cmp(sym.OpUle, in.St.Const(yk.bits, uint64(w)), y.T)
+				cntT = in.St.Resize(y.T, w, false)
+			}
 		} else {
 			cnt = y.C
 		}
@@ -208,17 +216,32 @@ func (in *Interp) intOp(op token.Token, k scKind, yt types.Type, x, y Sc) Value 
 		} else {
 			sop = sym.OpLShr
 		}
-		if cnt >= uint64(w) {
-			if sop == sym.OpAShr {
-				cnt = uint64(w) - 1
-			} else {
-				return Sc{C: 0}
-			}
+		ccnt := cnt
+		if ccnt >= uint64(w) {
+			ccnt = uint64(w) // EvalBin treats counts >= w as "all bits shifted out"
 		}
-		rc = sym.EvalBin(sop, w, x.C, cnt)
+		rc = sym.EvalBin(sop, w, x.C, ccnt)
 		r := Sc{C: canon(k, rc)}
-		if x.T != nil && !x.T.IsConst() {
-			r.T = in.St.Bin(sop, x.T, in.St.Const(w, cnt))
+		if cntT != nil || (x.T != nil && !x.T.IsConst()) {
+			xt := in.termOf(x, w)
+			var ct *sym.Term
+			if cntT != nil {
+				ct = cntT
+			} else {
+				ct = in.St.Const(w, ccnt)
+			}
+			t := in.St.Bin(sop, xt, ct)
+			if bigT != nil {
+				// count does not fit into w bits: everything is shifted out
+				var out *sym.Term
+				if sop == sym.OpAShr {
+					out = in.St.Bin(sym.OpAShr, xt, in.St.Const(w, uint64(w)-1))
+				} else {
+					out = in.St.Const(w, 0)
+				}
+				t = in.St.Ite(bigT, out, t)
+			}
+			r.T = t
 		}
 		return r
 	}
